@@ -464,7 +464,7 @@ func c11Run(w *W) {
 
 func init() {
 	register(&Scenario{Name: "concurrent-api", Prop: "C11", Horizon: time.Hour, Weight: 4, Run: c11Run})
-	register(&Scenario{Name: "concurrent-api-race", Prop: "C11R", Engine: "F", Horizon: time.Hour, Run: c11Run})
+	register(&Scenario{Name: "concurrent-api-race", Prop: "C11R", Engine: "F", Horizon: time.Hour, Weight: 24, Run: c11Run})
 	// "every call returns a result its sequential contract allows" needs a
 	// model of what the calls mean; the two checks that have one and overlap
 	// their calls run here as well: REQ batches of overlapping Send / Recv /
